@@ -275,7 +275,7 @@ Section rec.
             let found := fst own in
             let causes := snd own in
             match found with
-            | [] => Ok ([], RE (if top then [nmark n] else []) [] causes)
+            | [] => Ok ([], RE (if top || is_nil causes then [nmark n] else []) [] causes)   (* a leaf always cites the node (fix c13638b) *)
             | [_] =>
                 (* a tag that does not name the recognised class is an error *)
                 if negb (uprefix core_prefix (ntag n)) then
